@@ -27,7 +27,18 @@ def corpus():
           6: ([], ["K"])}
     msgs = [b"ZERO?", b"ZERO?;", b"ZERO?;\n", b"ZERO?\n", b"ZERO? ", b"ZERO?;TWO?", b"ZERO?;EVT;TWO?;EVT", b"EVT;EVT", b"EVT", b"", b"\n", b"TWO?;HDR?", b"HDR?;RANGE?;ZERO?",
             b"TWO?;RANGE?", b"EVT;ZERO?;EVT;", b"NONE?;ZERO?", b"ZERO?;NONE?;ZERO?", b"ZERO?;FOO?"]
-    return [mk(treegen.case_line("v", sub, sc, [m]), sc) for m in msgs]
+    out = [mk(treegen.case_line("v", sub, sc, [m]), sc) for m in msgs]
+    # sessions: one Context serves every message of the case; a message without a query leaves the buffer empty
+    # whatever came before
+    for seq in ([b"ZERO?", b"EVT", b"", b"EVT;EVT", b"TWO?"], [b"TWO?;HDR?", b"\n", b"EVT"], [b"EVT", b"ZERO?", b"EVT"], [b"ZERO?;FOO?", b"EVT", b"ZERO?"]):
+        out.append(mk(treegen.case_line("v", sub, sc, seq), sc))
+    # a datum whose last byte is the unit separator, the data separator or the terminator, followed by another unit
+    sub2 = [("L", b"BLK", False, 1), ("L", b"ONE", False, 2)]
+    for tail in (b";", b",", b"\n", b" ", b";;"):
+        sc2 = {1: ([], ["da" + hexs(b"ab" + tail)]), 2: ([], ["di1"])}
+        for m in (b"BLK?;ONE?", b"BLK?;BLK?", b"ONE?;BLK?;ONE?", b"BLK?"):
+            out.append(mk(treegen.case_line("v", sub2, sc2, [m]), sc2))
+    return out
 
 
 def generate(rng, tier):
@@ -36,7 +47,7 @@ def generate(rng, tier):
     for _ in range(n):
         tg = treegen.TreeGen(rng, illformed=0.0, pulls=False, emit=True, fail=0.03)
         sub = tg.tree(rng.choice([1, 2]))
-        msgs = [treegen.gen_message(rng, sub, nunits=rng.choice([1, 2, 3, 4, 6, 8]), bad=0.02, args=False) for _ in range(rng.choice([1, 2]))]
+        msgs = [treegen.gen_message(rng, sub, nunits=rng.choice([1, 2, 3, 4, 6, 8]), bad=0.02, args=False) for _ in range(rng.choice([1, 2, 3, 4]))]
         out.append(mk(treegen.case_line("v", sub, tg.scripts, msgs), tg.scripts))
     return out
 
